@@ -6,7 +6,7 @@ set -e
 HERE="$(cd "$(dirname "$0")" && pwd)"
 VERIF="$(dirname "$HERE")"
 REPO="${VERIF_REPO:-/repo}"
-B="$VERIF/build"
+B="${VERIF_BUILD:-$VERIF/build}"
 mkdir -p "$B"
 
 DEFS="-include $HERE/vf_defs.h"
